@@ -28,7 +28,8 @@ ASSUMPTIONS = ["msdparser.parse_msd is the tokenizer the rules are applied to", 
 MONITORS = ["entry_point", "construction_oracle", "lenient_equals_stripped", "strict_rejects_iff_stray", "chart_from_msd"]
 REQUIRED = ["lower_case_key", "duplicate_key", "param_after_notes", "stray_before_first_param", "stray_between",
             "stray_after", "missing_semicolon", "bom", "crlf", "short_chart", "file_other_suffix", "version_mixed_case",
-            "lower_case_multi_value_key", "long_preamble_before_version", "key_only_param", "corpus_mutation"]
+            "lower_case_multi_value_key", "long_preamble_before_version", "key_only_param", "corpus_mutation",
+            "version_key_spelled_with_escape", "key_only_notes_then_more_parameters"]
 
 FILE_NAMES = ["x.sm", "x.ssc", "x.SM", "x.SsC", "x.txt", "x.sm.bak", ".sm", "noext"]
 
@@ -297,14 +298,16 @@ def observe_features(ctx, segs, params, case):
         ctx.feat("key_only_param")
     seen_param = False
     for i, seg in enumerate(segs):
-        if seg[0] == "param":
+        if seg[0] == "rawparam":
+            ctx.feat("version_key_spelled_with_escape")
+        if seg[0] in ("param", "rawparam"):
             seen_param = True
             if seg[3] == "":
                 ctx.feat("missing_semicolon")
         elif seg[0] == "stray":
             if not seen_param:
                 ctx.feat("stray_before_first_param")
-            elif any(s[0] == "param" for s in segs[i + 1:]):
+            elif any(s[0] in ("param", "rawparam") for s in segs[i + 1:]):
                 ctx.feat("stray_between")
             else:
                 ctx.feat("stray_after")
@@ -316,7 +319,7 @@ def observe_features(ctx, segs, params, case):
         ctx.feat("version_mixed_case")
     pre = 0
     for seg in segs:
-        if seg[0] == "param":
+        if seg[0] in ("param", "rawparam"):
             if seg[1].upper() == "VERSION" and pre > 4096:
                 ctx.feat("long_preamble_before_version")
             break
@@ -386,6 +389,10 @@ def check_sscchart(ctx, case):
     from simfile.ssc import SSCChart
 
     segs = case["segments"]
+    ps = [s for s in segs if s[0] == "param"]
+    for i, s in enumerate(ps):
+        if s[1].upper() in ("NOTES", "NOTES2") and not s[2] and i + 1 < len(ps):
+            ctx.feat("key_only_notes_then_more_parameters")
     text = G.render(segs)
     ctx.begin(case, nontrivial=len(segs) > 3)
     if _ends_with_odd_backslashes(text):
